@@ -37,9 +37,10 @@ func TestReplay(t *testing.T) { vkit.Replay(t) }
 
 // ------------------------------------------------------------------ case
 
-// Ratio is one entry of limit_distribution.ratios; the ratio is Pct/100.
+// Ratio is one entry of limit_distribution.ratios; the ratio is Pct/100 + Milli/1000.
 type Ratio struct {
 	Pct    int      `json:"pct"`
+	Milli  int      `json:"milli,omitempty"` // extra thousandths (ratios like 0.125)
 	Values []string `json:"values"`
 }
 
@@ -70,8 +71,10 @@ type Step struct {
 	SubNs int64  `json:"sub_ns,omitempty"`
 	TZMin int    `json:"tz_min,omitempty"` // rfc3339 rendering zone offset
 	Raw   string `json:"raw,omitempty"`
-	Pad   int    `json:"pad,omitempty"`  // length of the "pad" field (varies the event size)
-	Proc  int    `json:"proc,omitempty"` // which plugin instance (processor) handles the event
+	Pad   int    `json:"pad,omitempty"` // length of the "pad" field (varies the event size)
+	// Repeat > 1: the same event arrives Repeat times in a row (a burst; every copy is judged)
+	Repeat int `json:"repeat,omitempty"`
+	Proc   int `json:"proc,omitempty"` // which plugin instance (processor) handles the event
 }
 
 // Case is a throttle configuration plus a history.
@@ -127,12 +130,20 @@ func genDist(t *rapid.T, label string) *Dist {
 			pct = left
 		}
 		left -= pct
+		milli := 0
 		nv := 1
 		if len(levels) > 1 && rapid.IntRange(0, 3).Draw(t, label+"two") == 0 {
 			nv = 2
 		}
-		d.Ratios = append(d.Ratios, Ratio{Pct: pct, Values: append([]string{}, levels[:nv]...)})
+		d.Ratios = append(d.Ratios, Ratio{Pct: pct, Milli: milli, Values: append([]string{}, levels[:nv]...)})
 		levels = levels[nv:]
+	}
+	if len(d.Ratios) >= 2 && left >= 1 && rapid.IntRange(0, 2).Draw(t, label+"fine") == 0 {
+		// ratios with three decimals (0.125 / 0.375): the share is ratio*limit all the same. Two ratios get
+		// x and 10-x extra thousandths, so that what is left for the default distribution stays a whole
+		// percent (the plugin rounds the default ratio to two decimals).
+		x := rapid.SampledFrom([]int{5, 5, 5, 1, 3, 9}).Draw(t, label+"milli")
+		d.Ratios[0].Milli, d.Ratios[1].Milli = x, 10-x
 	}
 	return d
 }
@@ -179,9 +190,29 @@ func gen(t *rapid.T) Case {
 	if hasDefDist {
 		c.DefaultDist = genDist(t, "default_dist_")
 	}
+	fine := func(d *Dist) bool { return d != nil && len(d.Ratios) > 0 && d.Ratios[0].Milli > 0 }
+	bursts := false
+	if fine(c.DefaultDist) && c.DefaultKind == "count" {
+		// three-decimal ratios only matter for limits whose shares are not whole numbers of hundredths
+		c.DefaultLimit = rapid.SampledFrom([]int64{40, 100, 200}).Draw(t, "default_biglimit")
+		bursts = true
+	}
 	nRules := rapid.SampledFrom([]int{0, 0, 1, 1, 2, 3}).Draw(t, "n_rules")
+	manyRules := rapid.IntRange(0, 11).Draw(t, "many_rules") == 0
+	if manyRules {
+		// a long rule list: rule 0 (and rule 26) are ordinary, the rules in between never match; an event
+		// that matches none gets the default limit, which is "rule" number len(rules)
+		nRules = rapid.SampledFrom([]int{26, 26, 27, 30}).Draw(t, "n_many_rules")
+	}
 	for i := 0; i < nRules; i++ {
 		r := Rule{Cond: map[string]string{}}
+		if manyRules && i != 0 && i != 26 {
+			r.Cond["ns"] = fmt.Sprintf("q%d", i)
+			r.Kind = genKind(t, "rule_kind")
+			r.Limit = genLimit(t, "rule_", r.Kind, false)
+			c.Rules = append(c.Rules, r)
+			continue
+		}
 		switch rapid.IntRange(0, 9).Draw(t, "cond_shape") {
 		case 0: // no conditions: matches every event, shadows everything after it
 		case 1, 2, 3: // two conditions (AND)
@@ -196,6 +227,10 @@ func gen(t *rapid.T) Case {
 		r.Limit = genLimit(t, "rule_", r.Kind, hasDist)
 		if hasDist {
 			r.Dist = genDist(t, "rule_dist_")
+			if fine(r.Dist) && r.Kind == "count" {
+				r.Limit = rapid.SampledFrom([]int64{40, 100, 200}).Draw(t, "rule_biglimit")
+				bursts = true
+			}
 		}
 		c.Rules = append(c.Rules, r)
 	}
@@ -315,6 +350,9 @@ func gen(t *rapid.T) Case {
 				s.SubNs = int64(rapid.IntRange(0, 999999).Draw(t, "sub_ns"))
 			}
 		}
+		if bursts && rapid.IntRange(0, 2).Draw(t, "burst") == 0 {
+			s.Repeat = rapid.IntRange(10, 80).Draw(t, "repeat")
+		}
 		c.Steps = append(c.Steps, s)
 	}
 	// make sure most histories end beyond the first window
@@ -364,7 +402,7 @@ func sortedKeys[V any](m map[string]V) []string {
 func distJSON(d *Dist) map[string]any {
 	rs := []any{}
 	for _, r := range d.Ratios {
-		rs = append(rs, map[string]any{"ratio": float64(r.Pct) / 100, "values": r.Values})
+		rs = append(rs, map[string]any{"ratio": float64(r.milli()) / 1000, "values": r.Values})
 	}
 	return map[string]any{"field": d.Field, "ratios": rs}
 }
@@ -596,10 +634,13 @@ func execute(c Case, steps []Step) *execResult {
 // oracle accepts anything in [floor, ceil].
 type shareBounds struct{ lo, hi int64 }
 
-func share(pct int, limit int64) shareBounds {
-	num := int64(pct) * limit
-	return shareBounds{lo: num / 100, hi: (num + 99) / 100}
+// share takes the ratio in thousandths.
+func share(milli int, limit int64) shareBounds {
+	num := int64(milli) * limit
+	return shareBounds{lo: num / 1000, hi: (num + 999) / 1000}
 }
+
+func (r Ratio) milli() int { return r.Pct*10 + r.Milli }
 
 type limSpec struct {
 	limit int64
@@ -788,15 +829,15 @@ func judge(o *vkit.Outcome, c Case, steps []Step, res *execResult, info *evalInf
 				}
 			}
 		}
-		sumPct := 0
+		sumPct := 0 // in thousandths
 		var sumLo, sumHi int64
 		for _, r := range d.Ratios {
-			sumPct += r.Pct
-			b := share(r.Pct, sp.limit)
+			sumPct += r.milli()
+			b := share(r.milli(), sp.limit)
 			sumLo += b.lo
 			sumHi += b.hi
 		}
-		defShare := share(100-sumPct, sp.limit)
+		defShare := share(1000-sumPct, sp.limit)
 		sumLo += defShare.lo
 		sumHi += defShare.hi
 		var seenListed, passedTotal int64
@@ -815,13 +856,13 @@ func judge(o *vkit.Outcome, c Case, steps []Step, res *execResult, info *evalInf
 			info.overLimitByRounding = true
 		}
 		if g > 0 {
-			b := share(d.Ratios[g-1].Pct, sp.limit)
+			b := share(d.Ratios[g-1].milli(), sp.limit)
 			if st.seen[g] >= b.lo {
 				info.exceeded = true
 			}
 			if passed && st.passed[g]+amount > b.hi {
 				// (iii) each listed value stays within its share (README: "NO MORE than")
-				o.Failf(P, "dist-listed-over-share:"+sigKind, "%s PASSED: value %q (ratio %d%%) has passed %d, becomes %d > its share %d", where(), val, d.Ratios[g-1].Pct, st.passed[g], st.passed[g]+amount, b.hi)
+				o.Failf(P, "dist-listed-over-share:"+sigKind, "%s PASSED: value %q (ratio %d/1000) has passed %d, becomes %d > its share %d", where(), val, d.Ratios[g-1].milli(), st.passed[g], st.passed[g]+amount, b.hi)
 				return
 			}
 			// README note 3: the default distribution may steal from a listed one after exhausting its
@@ -832,14 +873,14 @@ func judge(o *vkit.Outcome, c Case, steps []Step, res *execResult, info *evalInf
 				stolenMax = max64(0, st.seen[0]-defShare.lo)
 			}
 			if !passed && st.seen[g]+amount+stolenMax <= b.lo {
-				o.Failf(P, "dist-listed-rejected-under-share:"+sigKind, "%s REJECTED: value %q (ratio %d%%, share >= %d) has seen only %d incl. this event, and unlisted events can have stolen at most %d", where(), val, d.Ratios[g-1].Pct, b.lo, st.seen[g]+amount, stolenMax)
+				o.Failf(P, "dist-listed-rejected-under-share:"+sigKind, "%s REJECTED: value %q (ratio %d/1000, share >= %d) has seen only %d incl. this event, and unlisted events can have stolen at most %d", where(), val, d.Ratios[g-1].milli(), b.lo, st.seen[g]+amount, stolenMax)
 				return
 			}
 		} else {
 			if st.seen[0] >= defShare.lo {
 				info.exceeded = true
 			}
-			if passed && sumPct == 100 {
+			if passed && sumPct == 1000 {
 				// README note 2: "If sum of ratios less than 1, then adding default distribution with ratio 1-sum,
 				// otherwise default distribution isn't used. All events for which the value in the field doesn't fall
 				// into any of the distributions: fall into default distribution, if it exists; throttled, otherwise"
@@ -851,7 +892,7 @@ func judge(o *vkit.Outcome, c Case, steps []Step, res *execResult, info *evalInf
 				o.Failf(P, "dist-default-rejected-under-share:"+sigKind, "%s REJECTED: unlisted value %q, default share >= %d, unlisted events seen incl. this one %d", where(), val, defShare.lo, st.seen[0]+amount)
 				return
 			}
-			if !passed && sp.kind != "size" && sumPct < 100 && seenListed == 0 && st.seen[0]+amount <= sumLo {
+			if !passed && sp.kind != "size" && sumPct < 1000 && seenListed == 0 && st.seen[0]+amount <= sumLo {
 				// README: "(can be up to <limit> if there are no events with <listed values>)" — only a default
 				// distribution that exists can steal (note 3); asserted for the count kind only (with sizes an event may fit no single share although the sum has room)
 				o.Failf(P, "dist-default-rejected-with-free-shares:"+sigKind, "%s REJECTED: unlisted value %q, no listed value seen in this bucket, unlisted seen incl. this one %d <= sum of shares %d", where(), val, st.seen[0]+amount, sumLo)
@@ -894,6 +935,7 @@ func run(c Case) *vkit.Outcome {
 		o.Class("invalid-case-skipped")
 		return o
 	}
+	c.Steps = expandBursts(c.Steps)
 	res := execute(c, c.Steps)
 	if res.panicVal != nil {
 		o.Failf(P, vkit.PanicSig(res.panicVal, res.panicStk), "panic: %v\n%s", res.panicVal, res.panicStk)
@@ -1040,6 +1082,25 @@ func run(c Case) *vkit.Outcome {
 		o.Nontrivial(P)
 	}
 	return o
+}
+
+// expandBursts replaces a step with Repeat > 1 by that many single events.
+func expandBursts(steps []Step) []Step {
+	var out []Step
+	for _, s := range steps {
+		n := 1
+		if s.SleepMs == 0 && s.Repeat > 1 {
+			n = s.Repeat
+			if n > 500 {
+				n = 500
+			}
+		}
+		s.Repeat = 0
+		for i := 0; i < n; i++ {
+			out = append(out, s)
+		}
+	}
+	return out
 }
 
 func verdict(d int8) string {
